@@ -3,6 +3,12 @@
 #define VF_C10_FAM_A_HPP
 
 #include "c10_common.hpp"
+// sub-groups (compile units): C10_A1 = theta, tuple, array of doubles;  C10_A2 = HLL, CPC
+#if !defined(C10_A1) && !defined(C10_A2)
+#define C10_A1
+#define C10_A2
+#endif
+#ifdef C10_A1
 #include <theta_sketch.hpp>
 #include <theta_union.hpp>
 #include <theta_intersection.hpp>
@@ -10,13 +16,17 @@
 #include <tuple_sketch.hpp>
 #include <tuple_union.hpp>
 #include <array_of_doubles_sketch.hpp>
+#endif
+#ifdef C10_A2
 #include <hll.hpp>
 #include <cpc_sketch.hpp>
 #include <cpc_union.hpp>
+#endif
 
 namespace vf { namespace c10 {
 using namespace datasketches;
 
+#ifdef C10_A1
 template<typename S, typename U> void apply_update_kv(S& sk, const Val& v, const U& u) {
   switch (v.kind) {
     case V_U64: sk.update(static_cast<uint64_t>(v.u), u); break;
@@ -194,7 +204,7 @@ inline void decode_check_tuple(const tuple_cmp& s, uint64_t seed, const std::str
   VF_CHECK(d.empty == s.is_empty(), "tuple|image-vs-api|empty-flag", ctx);
   VF_CHECK(d.theta == s.get_theta64(), "tuple|image-vs-api|theta", ctx);
   VF_CHECK(d.keys == keys, "tuple|image-vs-api|keys-or-order", ctx);
-  VF_CHECK(d.summaries.size() == sums.size() && memcmp(d.summaries.data(), sums.data(), sums.size() * 8) == 0, "tuple|image-vs-api|summaries", ctx);
+  VF_CHECK(same_bits(d.summaries, sums), "tuple|image-vs-api|summaries", ctx);
   if (!d.empty && keys.size() > 1) VF_CHECK(d.ordered == s.is_ordered(), "tuple|image-vs-api|ordered-flag", ctx);
   const unsigned want = s.is_estimation_mode() ? 3 : (s.is_empty() || keys.size() == 1) ? 1 : 2;
   VF_CHECK(d.pre_longs == want, "tuple|image|preamble-longs-vs-state", ctx);
@@ -270,7 +280,7 @@ inline void decode_check_aod(const compact_array_of_doubles_sketch& s, uint64_t 
   VF_CHECK(d.num_values == s.get_num_values(), "aod|image-vs-api|num-values", ctx);
   VF_CHECK(d.keys == keys, "aod|image-vs-api|keys-or-order", ctx);
   bool same = d.values.size() == vals.size();
-  for (size_t i = 0; same && i < vals.size(); ++i) same = d.values[i].size() == vals[i].size() && memcmp(d.values[i].data(), vals[i].data(), vals[i].size() * 8) == 0;
+  for (size_t i = 0; same && i < vals.size(); ++i) same = same_bits(d.values[i], vals[i]);
   VF_CHECK(same, "aod|image-vs-api|values", ctx);
   if (keys.size() > 1) VF_CHECK(d.ordered == s.is_ordered(), "aod|image-vs-api|ordered-flag", ctx);
   count(std::string("aod_") + (d.empty ? "empty" : d.has_entries ? "entries" : "nonempty_no_entries"));
@@ -291,6 +301,8 @@ inline void register_aod() {
   families().push_back(f);
 }
 
+#endif // C10_A1
+#ifdef C10_A2
 // =================================================================== HLL
 // model = max register per slot / coupon set computed from the reference hash of every input
 struct HllState { hll_sketch sk; bool compact; std::vector<Val> inputs; uint8_t lg_k; HllState(hll_sketch&& s, bool c, uint8_t l) : sk(std::move(s)), compact(c), lg_k(l) {} };
@@ -473,8 +485,8 @@ inline void decode_check_cpc(const CpcState& st, const std::string& img, const s
     rc.insert(x);
   }
   VF_CHECK(d.num_coupons == rc.size(), "cpc|image-vs-reference|num-coupons-vs-distinct-row-col-pairs", ctx + " stored=" + std::to_string(d.num_coupons) + " reference=" + std::to_string(rc.size()));
-  VF_CHECK(d.has_hip == (!st.merged && d.num_coupons > 0), "cpc|image|hip-flag-vs-merged", ctx + " flags=" + std::to_string(d.flags));
-  if (d.has_hip) VF_CHECK(d.hip == s.get_estimate(), "cpc|image-vs-api|hip-accumulator-vs-estimate", ctx + " hip=" + str(d.hip) + " est=" + str(s.get_estimate()));
+  if (d.num_coupons > 0) VF_CHECK(d.has_hip == !st.merged, "cpc|image|hip-flag-vs-merged", ctx + " flags=" + std::to_string(d.flags));
+  if (d.has_hip && d.num_coupons > 0) VF_CHECK(d.hip == s.get_estimate(), "cpc|image-vs-api|hip-accumulator-vs-estimate", ctx + " hip=" + str(d.hip) + " est=" + str(s.get_estimate()));
   if (d.has_window) VF_CHECK(d.table_num_entries <= d.num_coupons, "cpc|image|table-entries-above-coupons", ctx);
   // flavor -> which sections must be present (documented: sparse = table only; hybrid = table only (window merged into it);
   // pinned/sliding = window, table only when surprising values exist)
@@ -504,7 +516,16 @@ inline void register_cpc() {
   families().push_back(f);
 }
 
-inline void register_group_a() { register_theta(); register_tuple(); register_aod(); register_hll(); register_cpc(); }
+#endif // C10_A2
+
+inline void register_group_a() {
+#ifdef C10_A1
+  register_theta(); register_tuple(); register_aod();
+#endif
+#ifdef C10_A2
+  register_hll(); register_cpc();
+#endif
+}
 
 } } // namespace vf::c10
 #endif
